@@ -1,4 +1,4 @@
-import MlModel.Lemmas.TreeNd
+import MlModel.Lemmas.TreeFlavour
 /-!
 # C18 — tree views obey get/set laws and never mutate the viewed data
 
@@ -501,6 +501,60 @@ theorem C18_getV_agrees {h : Heap} {t : Ref} {p : Path} {x : Ref} (hg : get h t 
     subst hg
     exact ⟨y.2, getV_of_getCore h p t y hc⟩
 
+/-! ## C18_key_flavour — `Key.Index(i)` and the plain int `i` as path elements
+
+`Index` subclasses `int` (`Index(i) == i`, same hash), so a dict cannot tell them apart and `items()` lists a
+dict child under whatever key OBJECT the dict holds.  The model stores dict keys up to `==` and lists the normal
+form; the correspondence reports an element of a listed path that was met as a dict key in that normal form too
+(`canon_items_path` in harness/props/c18.py — wp-C18F removed a false alarm there).  These theorems say that
+nothing the property talks about depends on that choice: `PKey.flav` maps `Index(i)` to `i` and is the identity
+on every other key; two paths have the same *normal form* when `p.map flav = q.map flav`. -/
+
+/-- **Reads cannot tell `Index(i)` from `i`**: two paths of equal normal form read the same — the same object
+or the same error — through the reference-valued `__get` and through the complete one (paths into ndarrays);
+every heap, every path, SELF / SKIP / Literal keys included. -/
+theorem C18_key_flavour_read (h : Heap) (t : Ref) {p q : Path} (e : p.map PKey.flav = q.map PKey.flav) :
+    get h t p = get h t q ∧ getV h t p = getV h t q :=
+  ⟨get_congr_flav h t e, getV_congr_flav h t e⟩
+
+/-- … and so do multi-key reads. -/
+theorem C18_key_flavour_multikey (h : Heap) (t : Ref) (ks : List Path) :
+    getItem h t (.multi (ks.map (List.map PKey.flav))) = getItem h t (.multi ks) := by
+  simp only [getItem, mapM_get_flav]
+
+/-- **Whatever flavour a path listed by `items()` is spelled in, it reads back its leaf** (the read-back clause
+of `C18_items` for every spelling of the listed path, also through the complete `__get`). -/
+theorem C18_key_flavour_items {h : Heap} (hg : GoodDicts h) {root : Ref} {n : Node} (hn : h[root]? = some n)
+    (hc : n.children ≠ []) {kvs : List (Path × Ref)} (hi : items h root = .ok kvs) {p : Path} {x : Ref}
+    (hm : (p, x) ∈ kvs) {q : Path} (e : q.map PKey.flav = p.map PKey.flav) :
+    get h root q = .ok x ∧ ∃ m, getV h root q = .ok (.obj x, m) := by
+  have hp := ((C18_items hg hn hc hi).2.2 p x hm).2
+  have hq : get h root q = .ok x := by rw [get_congr_flav h root e]; exact hp
+  exact ⟨hq, C18_getV_agrees hq⟩
+
+/-- **On a path that exists, a set cannot tell them apart either** — copying or in place, strict or not, every
+heap: same resulting heap, same result or same error.  `Ex h t p`: every key of `p` but the last addresses a
+stored child (the last may be fresh: a new dict key, the append index; whatever follows SELF / SKIP is ignored;
+Literal keys are the dict keys they are for `set`). -/
+theorem C18_key_flavour_set (strict inPlace : Bool) (v : Ref) {h : Heap} {t : Ref} {p q : Path} (x : Ex h t p)
+    (e : q.map PKey.flav = p.map PKey.flav) :
+    setPath strict inPlace h t q v = setPath strict inPlace h t p v :=
+  setPath_congr_flav strict inPlace v x e
+
+/-- In particular for every path of plain keys that READS: `copy_and_set` through any spelling of it. -/
+theorem C18_key_flavour_set_readable (strict : Bool) (v : Ref) {h : Heap} {t x : Ref} {p q : Path}
+    (hp : PlainSelf p) (hg : get h t p = .ok x) (e : q.map PKey.flav = p.map PKey.flav) :
+    copyAndSet strict h t (.path q) v = copyAndSet strict h t (.path p) v := by
+  simp only [copyAndSet, setItem, setPath_congr_flav strict false v (Ex.of_get p t x hp hg) e]
+
+/-- Witness (a test, `decide`): on a FRESH path the flavour is NOT invisible — `_default_tree` builds a list for
+`Index(0)` and a dict for `0` (tree.py:276-283) — so `Ex` cannot be dropped from `C18_key_flavour_set`, and the
+correspondence keeps `Index` and `int` apart everywhere except at dict positions of listed paths. -/
+theorem C18_key_flavour_fresh_witness :
+    (setPath false false #[.null, .leaf (.int 1)] 0 [.idx 0] 1).1[2]? = some (.list [1]) ∧
+    (setPath false false #[.null, .leaf (.int 1)] 0 [.int 0] 1).1[2]? = some (.dict [(.int 0, 1)]) ∧
+    [PKey.idx 0].map PKey.flav = [PKey.int 0].map PKey.flav := by decide
+
 /-! ## non-vacuity: a concrete heap satisfies every hypothesis used above (tests, not theorems) -/
 
 section Examples
@@ -574,5 +628,11 @@ example : (applyFn false (some wrapFn) h0 3).2 = .ok 14 := rfl
 example : getItem h0 3 (.multi [[.idx 1], [.idx 0, .str "b"]]) = .ok (.many [0, 1]) := rfl
 
 end Examples
+
+-- C18_key_flavour: `Ex` holds of a readable path and of a path whose last key is fresh
+example : Ex h0 3 [.idx 0, .str "a"] := Ex.of_get _ 3 0 (by simp [PlainSelf, PKey.isPlain]) rfl
+example : Ex h0 3 [.int 0, .str "fresh"] :=
+  .step (n := .list [2, 0]) rfl rfl (.last (n := .dict [(.str "a", 0), (.str "b", 1)]) _ rfl (by simp))
+example : [PKey.int 0, .str "a"].map PKey.flav = [PKey.idx 0, .str "a"].map PKey.flav := rfl
 
 end MlModel.C18
